@@ -281,6 +281,27 @@ func TestPropValidity(t *testing.T) {
 		tab.AddAggregator(agg)
 		tab.AddRoute(cap)
 		aggIn := "unit=Metric.direction=in.aggregator=" + agg.Key
+		// a blacklist entry in half of the cases: validity is decided first whatever the blacklist says (an invalid line is
+		// counted and reported as invalid even when its name is blacklisted); a VALID line with a blacklisted name is
+		// counted as blacklisted and goes nowhere
+		var black *gen.Ref
+		blackDesc := "none"
+		if rapid.Bool().Draw(t, "blacklist") {
+			bf := gen.Filter{}
+			switch rapid.IntRange(0, 2).Draw(t, "blackkind") {
+			case 0:
+				bf.Sub = rapid.SampledFrom([]string{"a", "o", ".", "1", "=", "foo"}).Draw(t, "blacksub")
+			case 1:
+				bf.Regex = rapid.SampledFrom([]string{".", "^[a-m.]", "[0-9]", "^.{1,8}$"}).Draw(t, "blackre")
+			default:
+				bf.NotPrefix = rapid.SampledFrom([]string{"a", "foo", "x", "."}).Draw(t, "blacknotprefix")
+			}
+			bm := bf.MustMatcher()
+			tab.AddBlacklist(&bm)
+			black = bf.Ref()
+			blackDesc = bf.String()
+		}
+		nBlack := 0
 
 		n := rapid.IntRange(1, 25).Draw(t, "nlines")
 		c0 := h.ReadTableCounters()
@@ -302,7 +323,9 @@ func TestPropValidity(t *testing.T) {
 			if (lerr == nil) != ok {
 				t.Fatalf("HARNESS-ERROR: reference validator says valid=%v for %q at %s/%s but carbon20.ValidatePacket says %v", ok, line, legacy, m20lvl, lerr)
 			}
-			if ok {
+			if ok && black != nil && black.Match(string(refFields(line)[0])) {
+				nBlack++
+			} else if ok {
 				f := refFields(line)
 				wantFwd = append(wantFwd, string(bytes.Join(f, []byte(" "))))
 			} else {
@@ -327,7 +350,7 @@ func TestPropValidity(t *testing.T) {
 		}
 		h.AggBarrier(agg)
 		d := h.ReadTableCounters().Sub(c0)
-		ctx := fmt.Sprintf("levels legacy=%s(omitted=%v) m20=%s(omitted=%v) validate_order=%q lines=%q", legacy, omitL, m20lvl, omitM, order, lines)
+		ctx := fmt.Sprintf("levels legacy=%s(omitted=%v) m20=%s(omitted=%v) validate_order=%q blacklist=%s lines=%q", legacy, omitL, m20lvl, omitM, order, blackDesc, lines)
 		if int(d.In) != n {
 			t.Fatalf("inbound counter moved by %d for %d lines; %s", d.In, n, ctx)
 		}
@@ -347,7 +370,10 @@ func TestPropValidity(t *testing.T) {
 		if da := h.Count(aggIn) - a0; int(da) != len(wantFwd) {
 			t.Fatalf("the catch-all aggregation received %d points, %d lines are valid; %s", da, len(wantFwd), ctx)
 		}
-		if d.Blacklist != 0 || d.Unroutable != 0 || d.OutOfOrder != 0 {
+		if int(d.Blacklist) != nBlack {
+			t.Fatalf("blacklist counter moved by %d, %d valid lines have a blacklisted name (entry %s); %s", d.Blacklist, nBlack, blackDesc, ctx)
+		}
+		if d.Unroutable != 0 || d.OutOfOrder != 0 {
 			t.Fatalf("unexpected counters %+v; %s", d, ctx)
 		}
 		// bad-metrics report: every rejected parseable line under its name, with the last rejected text and a reason
